@@ -30,9 +30,9 @@ claimed.update({
    text="Seeded search over interleavings of application goroutines issuing asynchronous requests with the loops, with every atomic of the poller and queue a scheduling point in part of the runs (the lost-wake-up window between enqueue, the wakeupCall CAS and the eventfd write); exactly-once, per-user order and one-OnTraffic-per-Wake oracles at quiescence while the engine runs."),
  "C04": dict(engine="vsim", category="exploration", design="DESIGN.md §3 C04", technique=SIM_TECH, note=SIM_NOTE,
    text="Seeded search over racing close causes and late requests with descriptor numbers re-opened immediately by canaries; a per-connection state machine and cause-consistency oracle for the OnClose error, CountConnections checked against the window of opened-closed."),
- "C05": dict(engine="vsim", category="exploration", design="DESIGN.md §3 C05", technique=SIM_TECH,
-   note=SIM_NOTE + " Decides the confinement clauses only (which task runs which callback and issues which kernel call, no overlap, no panic under arbitrary concurrent API calls). Freedom from memory-level data races is NOT decided: a serialising scheduler orders all accesses through its own hand-offs, so the race detector would see happens-before everywhere.",
-   text="Confinement by simulation: every callback, runnable and kernel call is attributed to the executing task; one task per connection for life, no overlapping callbacks per loop, all I/O on a connection's descriptor from its loop's task, while user tasks call every concurrency-safe API at arbitrary moments."),
+ "C05": dict(engine="vsim", category="exploration", design="DESIGN.md §3 C05", technique=SIM_TECH + "; in the +race variants the Go race detector, shown only the framework's own synchronisation, is the happens-before oracle of each simulated run",
+   note=SIM_NOTE + " Confinement (which task runs which callback and issues which kernel call, no overlap, no panic under arbitrary concurrent API calls) is decided by attribution. Freedom from data races is decided by the race flavour: the deterministic runs execute under the Go race detector, which sees only the framework's own synchronisation (the serialising scheduler and the harness are hidden from it by a build overlay of two runtime files; trusts that overlay, the attribution of a report by its innermost non-library frames, and that the application-side hand-overs modelled by the harness are the ones a well-behaved application has). A pair of accesses is reported when it is unordered, not only when the racy interleaving occurs; accesses inside the standard library count for the calling gnet function; code paths no run reaches are not judged.",
+   text="Confinement by simulation: every callback, runnable and kernel call is attributed to the executing task; one task per connection for life, no overlapping callbacks per loop, all I/O on a connection's descriptor from its loop's task, while user tasks call every concurrency-safe API at arbitrary moments. Data races: the same seeded runs in a race-detector build in which the detector is the happens-before oracle over gnet's accesses and gnet's synchronisation only; found and led to the repair of two races (Engine calls during start against the load balancer's list; a ring buffer recycled while Conn.WriteTo was still draining it)."),
  "C06": dict(engine="vsim", category="exploration", design="DESIGN.md §3 C06", technique=SIM_TECH, note=SIM_NOTE,
    text="Seeded search over shutdown source and moment (any scheduler step) with open, idle, active and half-accepted connections and concurrent second stops; Run must return nil before the system goes quiet for good, after every OnClose and exactly one OnShutdown, and nothing of the engine may run in a post-mortem phase in which timers keep firing."),
  "C07": dict(engine="vsim", category="exploration", design="DESIGN.md §3 C07", technique=SIM_TECH, note=SIM_NOTE,
